@@ -146,7 +146,10 @@ def check_try(ctx, cfg, key, boxed):
         det = "expected Vec::extend((&mut iter).take(N))"
         if ok:
             src = ex[0].args[1]
-            ok = isinstance(src, tuple) and len(src) == 5 and src[:3] == ("V", "iter", "take") and src[3][0] == "P" and src[3][1] == ("local", it_local) and src[4] == ("I", N)
+            inner = src[3] if isinstance(src, tuple) and len(src) == 5 and src[:3] == ("V", "iter", "take") else None
+            if isinstance(inner, tuple) and len(inner) >= 4 and inner[:3] == ("V", "iter", "by_ref"):
+                inner = inner[3]  # Iterator::by_ref's provided body is `self` (an iterator type overriding it is outside the claim)
+            ok = inner is not None and inner[0] == "P" and inner[1] == ("local", it_local) and src[4] == ("I", N)
             wc = [c for c in a.calls if c.fn == "alloc::vec::Vec::<T>::with_capacity"]
             cap = len(wc) == 1 and wc[0].args[0] == ("I", N)
             det = "source = take(&mut iter, N): %s; Vec::with_capacity(N): %s" % (ok, cap)
